@@ -347,6 +347,11 @@ class Harness(cm.BaseA):
     def step(self, W, ev, config):
         wl = W["wl"]["w"]
         exact = not config.get("inexact")
+        if W["depth"] <= 1 and not config.get("inexact"):
+            # the same process first emits the other device's variant of this operation on its own labware
+            other = "FluentWorklist" if config["worklists"]["w"]["cls"] == "EvoWorklist" else "EvoWorklist"
+            decoy = make_world({"labware": config["labware"], "worklists": {"w": dict(config["worklists"]["w"], cls=other)}})
+            exec_event(decoy, ev)
         out, exc = exec_event(W, ev)
         recs = list(wl)
         del wl[:]
